@@ -1267,5 +1267,541 @@ theorem ServerInv.connect {s : NetcodeServer} (h : ServerInv s) {ad : Addr} {i :
   · show (s.clients.set i (some c)).length ≤ _
     rw [List.length_set]; exact h9
 
+/-! ### the operations other than `process_packet` -/
+
+/-- `Res.bind_ok` / `Res.pure_eq` as ordinary rewrite rules.  (The originals are `rfl`-lemmas; `simp` then leaves the
+    step to the kernel's definitional unfolding, which may run into `incU64 x …` / `x + 250000000` and unfold the
+    literal in unary.) -/
+theorem bind_ok' {ε α β} (a : α) (f : α → Res ε β) : (Res.ok a >>= f) = f a := Res.bind_ok a f
+theorem pure_eq' {ε α} (a : α) : (pure a : Res ε α) = .ok a := Res.pure_eq a
+theorem bind_err' {ε α β} (e : ε) (f : α → Res ε β) : (Res.err e >>= f) = Res.err e := Res.bind_err e f
+theorem bind_panic' {ε α β} (m : String) (f : α → Res ε β) : (Res.panic m >>= f) = Res.panic m := Res.bind_panic m f
+
+theorem bind_ne_panic {ε α β} {x : Res ε α} {f : α → Res ε β} {m : String}
+    (hx : x ≠ .panic m) (hf : ∀ a, f a ≠ .panic m) : (x >>= f) ≠ .panic m := by
+  cases x with
+  | ok a => exact hf a
+  | err e => simp
+  | panic m' => intro h; simp only [bind_panic', Res.panic.injEq] at h; subst h; exact hx rfl
+
+/-- `Packet::encode` never unwinds -/
+theorem encode_ne_panic (a : AEAD) (p : Packet) (cap pid : Nat) (crypto : Option (Nat × Bytes)) (m : String) :
+    p.encode a cap pid crypto ≠ .panic m := by
+  unfold Packet.encode
+  split
+  · refine bind_ne_panic (io?_ne_panic _ _) fun w => bind_ne_panic (io?_ne_panic _ _) fun w' => by simp
+  · split
+    · simp
+    · refine bind_ne_panic (io?_ne_panic _ _) fun w => ?_
+      simp only
+      refine bind_ne_panic (io?_ne_panic _ _) fun w' => ?_
+      split <;> simp
+
+theorem incU64_ok {ε} {x : Nat} (site : String) (h : x < U64_MAX) : (incU64 x site : Res ε Nat) = .ok (x + 1) := by
+  unfold incU64; rw [if_pos (by omega)]
+
+theorem incU64_eq_ok {ε} {x y : Nat} {site : String} (h : (incU64 x site : Res ε Nat) = .ok y) : y = x + 1 := by
+  unfold incU64 at h; split at h <;> cases h; rfl
+
+theorem durAdd_ok {ε} {x y : Nat} (site : String) (h : x + y ≤ DURATION_MAX) :
+    (durAdd x y site : Res ε Nat) = .ok (x + y) := by
+  unfold durAdd; rw [if_pos h]
+
+theorem durAdd_eq_ok {ε} {x y z : Nat} {site : String} (h : (durAdd x y site : Res ε Nat) = .ok z) : z = x + y := by
+  unfold durAdd at h; split at h <;> cases h; rfl
+
+/-- `NetcodeServer::new` establishes the invariant (and as many slots as the limit) -/
+theorem new_inv {t m pid : Nat} {pa : List Addr} {sec : Bool} {k ck : Bytes} {s : NetcodeServer}
+    (h : NetcodeServer.new t m pid pa sec k ck = .ok s) :
+    ServerInv s ∧ s.clients = List.replicate m none ∧ s.maxClients = m ∧ s.pendingClients = [] ∧ s.currentTime = t := by
+  unfold NetcodeServer.new at h
+  split at h
+  · cases h
+  · rename_i hm
+    cases h
+    refine ⟨⟨SlotsOK.replicate m, ?_, ?_, ?_, ?_, ?_, EntriesOK.replicate _, ?_, ?_⟩, rfl, rfl, rfl, rfl⟩
+    · intro i c hc
+      exact absurd hc (by unfold At; rw [List.getElem?_replicate]; split <;> simp)
+    · intro p hp; cases hp
+    · exact List.nodup_nil
+    · exact Nat.zero_le _
+    · exact List.length_replicate
+    · show m ≤ (List.replicate m none).length
+      rw [List.length_replicate]; exact Nat.le_refl _
+    · show (List.replicate m none).length ≤ _
+      rw [List.length_replicate]; omega
+
+theorem new_ne_panic {t m pid : Nat} {pa : List Addr} {sec : Bool} {k ck : Bytes} (hm : m ≤ C.NETCODE_MAX_CLIENTS) :
+    ∃ s, NetcodeServer.new t m pid pa sec k ck = .ok s := by
+  unfold NetcodeServer.new
+  rw [if_neg (by omega)]
+  exact ⟨_, rfl⟩
+
+/-- `set_max_clients`: the slot list grows to the new limit if that is larger, it never shrinks -/
+theorem setMaxClients_eq (s : NetcodeServer) (m : Nat) :
+    (s.setMaxClients m).maxClients = min m C.NETCODE_MAX_CLIENTS ∧
+    (s.setMaxClients m).clients =
+      s.clients ++ List.replicate (min m C.NETCODE_MAX_CLIENTS - s.clients.length) none ∧
+    (s.setMaxClients m).pendingClients = s.pendingClients ∧
+    (s.setMaxClients m).connectTokenEntries = s.connectTokenEntries ∧
+    (s.setMaxClients m).currentTime = s.currentTime := by
+  unfold NetcodeServer.setMaxClients
+  refine ⟨rfl, ?_, rfl, rfl, rfl⟩
+  simp only
+  split
+  · rfl
+  · rename_i h
+    have : min m C.NETCODE_MAX_CLIENTS - s.clients.length = 0 := by omega
+    rw [this]; simp
+
+theorem setMaxClients_inv {s : NetcodeServer} (h : ServerInv s) (m : Nat) : ServerInv (s.setMaxClients m) := by
+  obtain ⟨e1, e2, e3, e4, e5⟩ := setMaxClients_eq s m
+  obtain ⟨h1, h2, h3, h4, h5, h6, h7, h8, h9⟩ := h
+  constructor
+  · rw [e2]; exact h1.append_none _
+  · rw [e2, e5]; intro i c hc; exact h2 i c (at_append_none.mp hc)
+  · rw [e2, e3, e5]
+    intro p hp
+    obtain ⟨a1, a2, a3, a4, a5⟩ := h3 p hp
+    exact ⟨a1, a2, a3, a4, fun j cj hj => a5 j cj (at_append_none.mp hj)⟩
+  · rw [e3]; exact h4
+  · rw [e3]; exact h5
+  · rw [e4]; exact h6
+  · rw [e4]; exact h7
+  · rw [e1, e2, List.length_append, List.length_replicate]; omega
+  · rw [e2, List.length_append, List.length_replicate]; omega
+
+/-- `update`: the clock advances, half-open sessions whose token has expired are dropped, nothing else changes -/
+theorem update_ok {s s' : NetcodeServer} {d : Nat} (h : s.update d = .ok s') :
+    s' = { s with currentTime := s.currentTime + d
+                  pendingClients := s.pendingClients.filter fun p => !(asSecs (s.currentTime + d) > p.2.expireTimestamp) } := by
+  unfold NetcodeServer.update at h
+  cases hd : (durAdd s.currentTime d "server.rs update: current_time += duration" : Res Empty Nat) with
+  | ok now =>
+    rw [hd] at h
+    simp only [bind_ok', pure_eq', Res.ok.injEq] at h
+    rw [durAdd_eq_ok hd] at h
+    exact h.symm
+  | err e => exact e.elim
+  | panic m => rw [hd] at h; cases h
+
+theorem update_inv {s s' : NetcodeServer} {d : Nat} (h : ServerInv s) (hu : s.update d = .ok s') : ServerInv s' := by
+  rw [update_ok hu]
+  have h' := ServerInv.filterPending h fun p => !(asSecs (s.currentTime + d) > p.2.expireTimestamp)
+  obtain ⟨h1, h2, h3, h4, h5, h6, h7, h8, h9⟩ := h'
+  refine ⟨h1, ?_, ?_, h4, h5, h6, h7, h8, h9⟩
+  · intro i c hc; exact (h2 i c hc).mono (Nat.le_add_right _ _)
+  · intro p hp
+    obtain ⟨a1, a2, a3, a4, a5⟩ := h3 p hp
+    exact ⟨a1, a2, a3, a4.mono (Nat.le_add_right _ _), a5⟩
+
+theorem update_ne_panic {s : NetcodeServer} {d : Nat} (h : s.currentTime + d ≤ DURATION_MAX) :
+    ∃ s', s.update d = .ok s' := by
+  unfold NetcodeServer.update
+  rw [durAdd_ok _ h]
+  exact ⟨_, rfl⟩
+
+theorem getD_of_at {cl : Slots} {i : Nat} {c : Connection} (h : At cl i c) : cl.getD i none = some c := by
+  unfold At at h
+  rw [List.getD_eq_getElem?_getD, h]; rfl
+
+/-- `disconnect`: either the id is not connected (nothing happens) or its slot is freed and reported -/
+theorem disconnect_spec (a : AEAD) (s : NetcodeServer) (id : Nat) :
+    (findClientSlotById s.clients id = none ∧ s.disconnect a id = .ok (.none, s)) ∨
+    (∃ i c o, findClientSlotById s.clients id = some i ∧ At s.clients i c ∧ c.clientId = id ∧
+      s.disconnect a id = .ok (.clientDisconnected id c.addr o, { s with clients := s.clients.set i none })) := by
+  unfold NetcodeServer.disconnect
+  cases hf : findClientSlotById s.clients id with
+  | none => left; exact ⟨rfl, rfl⟩
+  | some i =>
+    right
+    obtain ⟨c, hc, hid, _⟩ := findSlot_some hf
+    simp only [getD_of_at hc]
+    cases he : Packet.disconnect.encode a C.NETCODE_MAX_PACKET_BYTES s.protocolId (some (c.sequence, c.sendKey)) with
+    | ok out => exact ⟨i, c, some out, rfl, hc, hid, rfl⟩
+    | err e => exact ⟨i, c, none, rfl, hc, hid, rfl⟩
+    | panic m => exact absurd he (encode_ne_panic _ _ _ _ _ _)
+
+theorem disconnect_inv {a : AEAD} {s s' : NetcodeServer} {id : Nat} {r : ServerResult} (h : ServerInv s)
+    (hd : s.disconnect a id = .ok (r, s')) : ServerInv s' := by
+  rcases disconnect_spec a s id with ⟨_, e⟩ | ⟨i, c, o, _, _, _, e⟩
+  · rw [e] at hd; cases hd; exact h
+  · rw [e] at hd; cases hd; exact h.dropSlot i
+
+/-- the time-out test of `update_client` -/
+def TimedOut (c : Connection) (now : Nat) : Prop :=
+  c.timeoutSeconds > 0 ∧ c.lastPacketReceivedTime + fromSecs c.timeoutSeconds.toNat < now
+
+instance (c : Connection) (now : Nat) : Decidable (TimedOut c now) := by unfold TimedOut; infer_instance
+
+/-- `update_client` on a connected id, given room in the clock and the sequence number:
+    * timed out ⇒ the slot is freed and `ClientDisconnected` reported;
+    * otherwise the session stays; a keep-alive goes out when the send timer is due. -/
+theorem updateClient_spec (a : AEAD) {s : NetcodeServer} {id i : Nat} {c : Connection} (hi : ServerInv s)
+    (hf : findClientSlotById s.clients id = some i) (hc : At s.clients i c)
+    (hclock : s.currentTime + fromSecs (2 ^ 31) ≤ DURATION_MAX) (hseq : c.sequence < U64_MAX) :
+    (TimedOut c s.currentTime ∧ ∃ o, s.updateClient a id =
+        .ok (.clientDisconnected id c.addr o, { s with clients := s.clients.set i none })) ∨
+    (¬ TimedOut c s.currentTime ∧
+      (s.updateClient a id = .ok (.none, s) ∨
+       ∃ out, c.lastPacketSendTime + C.NETCODE_SEND_RATE_NS ≤ s.currentTime ∧
+         (Packet.keepAlive (i % 2 ^ 32) (s.maxClients % 2 ^ 32)).encode a C.NETCODE_MAX_PACKET_BYTES s.protocolId
+            (some (c.sequence, c.sendKey)) = .ok out ∧
+         s.updateClient a id = .ok (.packetToSend c.addr out,
+          { s with clients :=
+              s.clients.set i (some { c with sequence := c.sequence + 1, lastPacketSendTime := s.currentTime }) }))) := by
+  have hok := hi.slotsOK i c hc
+  have hst := hi.slots.conn i c hc
+  have hns : fromSecs c.timeoutSeconds.toNat ≤ fromSecs (2 ^ 31) := by
+    unfold fromSecs
+    apply Nat.mul_le_mul_right
+    have := hok.tmo
+    omega
+  have hsr : C.NETCODE_SEND_RATE_NS ≤ fromSecs (2 ^ 31) := by decide
+  have h1 := hok.recv
+  have h2 := hok.send
+  unfold NetcodeServer.updateClient
+  simp only [hf, getD_of_at hc]
+  by_cases hto : TimedOut c s.currentTime
+  · left
+    refine ⟨hto, ?_⟩
+    obtain ⟨ht1, ht2⟩ := hto
+    rw [if_pos ht1, durAdd_ok _ (by omega)]
+    simp only [bind_ok', pure_eq', decide_eq_true ht2, if_true]
+    cases he : Packet.disconnect.encode a C.NETCODE_MAX_PACKET_BYTES s.protocolId (some (c.sequence, c.sendKey)) with
+    | ok out => exact ⟨some out, rfl⟩
+    | err e => exact ⟨none, rfl⟩
+    | panic m => exact absurd he (encode_ne_panic _ _ _ _ _ _)
+  · right
+    refine ⟨hto, ?_⟩
+    have hfalse : (if c.timeoutSeconds > 0 then do
+          let deadline ← (durAdd c.lastPacketReceivedTime (fromSecs c.timeoutSeconds.toNat)
+                           "server.rs update_client: last_packet_received_time + timeout" : Res Empty Nat)
+          pure (decide (deadline < s.currentTime))
+        else pure false : Res Empty Bool) = .ok false := by
+      by_cases ht1 : c.timeoutSeconds > 0
+      · rw [if_pos ht1, durAdd_ok _ (by omega)]
+        simp only [bind_ok', pure_eq', Res.ok.injEq, decide_eq_false_iff_not]
+        intro ht2; exact hto ⟨ht1, ht2⟩
+      · rw [if_neg ht1]; rfl
+    rw [hfalse]
+    simp only [bind_ok', Bool.false_eq_true, if_false, hst, reduceCtorEq]
+    rw [durAdd_ok _ (by omega)]
+    simp only [bind_ok']
+    split
+    · rename_i hdue
+      cases he : (Packet.keepAlive (i % 2 ^ 32) (s.maxClients % 2 ^ 32)).encode a C.NETCODE_MAX_PACKET_BYTES
+          s.protocolId (some (c.sequence, c.sendKey)) with
+      | ok out =>
+        right
+        simp only [incU64_ok _ hseq, bind_ok', pure_eq']
+        exact ⟨out, hdue, rfl, rfl⟩
+      | err e => left; rfl
+      | panic m => exact absurd he (encode_ne_panic _ _ _ _ _ _)
+    · left; rfl
+
+theorem updateClient_absent (a : AEAD) {s : NetcodeServer} {id : Nat} (hf : findClientSlotById s.clients id = none) :
+    s.updateClient a id = .ok (.none, s) := by
+  unfold NetcodeServer.updateClient; rw [hf]
+
+theorem connOK_now {now : Nat} {c : Connection} (h : ConnOK now c) :
+    ConnOK now { c with lastPacketSendTime := now } := ⟨h.recv, Nat.le_refl _, h.tmo⟩
+
+theorem updateClient_inv {a : AEAD} {s s' : NetcodeServer} {id : Nat} {r : ServerResult} (h : ServerInv s)
+    (hh : Headroom s) (hu : s.updateClient a id = .ok (r, s')) : ServerInv s' := by
+  cases hf : findClientSlotById s.clients id with
+  | none => rw [updateClient_absent a hf] at hu; cases hu; exact h
+  | some i =>
+    obtain ⟨c, hc, _, _⟩ := findSlot_some hf
+    rcases updateClient_spec a h hf hc hh.clock (hh.seqs i c hc) with ⟨_, o, e⟩ | ⟨_, e | ⟨out, _, _, e⟩⟩
+    · rw [e] at hu; cases hu; exact h.dropSlot i
+    · rw [e] at hu; cases hu; exact h
+    · rw [e] at hu; cases hu
+      exact h.refreshSlot hc rfl (h.slots.conn i c hc)
+        ⟨(h.slotsOK i c hc).recv, Nat.le_refl _, (h.slotsOK i c hc).tmo⟩
+
+theorem updateClient_ne_panic (a : AEAD) {s : NetcodeServer} (id : Nat) (h : ServerInv s) (hh : Headroom s) :
+    ∃ r s', s.updateClient a id = .ok (r, s') := by
+  cases hf : findClientSlotById s.clients id with
+  | none => exact ⟨_, _, updateClient_absent a hf⟩
+  | some i =>
+    obtain ⟨c, hc, _, _⟩ := findSlot_some hf
+    rcases updateClient_spec a h hf hc hh.clock (hh.seqs i c hc) with ⟨_, o, e⟩ | ⟨_, e | ⟨out, _, _, e⟩⟩
+    · exact ⟨_, _, e⟩
+    · exact ⟨_, _, e⟩
+    · exact ⟨_, _, e⟩
+
+/-- `generate_payload_packet`: the packet goes to the address of the slot holding that id, sealed with that slot's
+    send key and sequence number; only that slot's sequence number and send timer change -/
+theorem generatePayload_ok {a : AEAD} {s s' : NetcodeServer} {id : Nat} {payload out : Bytes} {ad : Addr}
+    (h : s.generatePayloadPacket a id payload = .ok ((ad, out), s')) :
+    ∃ i c, findClientSlotById s.clients id = some i ∧ At s.clients i c ∧ c.clientId = id ∧ ad = c.addr ∧
+      (Packet.payload payload).encode a C.NETCODE_MAX_PACKET_BYTES s.protocolId (some (c.sequence, c.sendKey)) = .ok out ∧
+      s' = { s with clients :=
+              s.clients.set i (some { c with sequence := c.sequence + 1, lastPacketSendTime := s.currentTime }) } := by
+  unfold NetcodeServer.generatePayloadPacket at h
+  split at h
+  · cases h
+  · cases hf : findClientSlotById s.clients id with
+    | none => rw [hf] at h; simp at h
+    | some i =>
+      obtain ⟨c, hc, hid, hb⟩ := findSlot_some hf
+      rw [hf, hb] at h
+      simp only at h
+      cases he : (Packet.payload payload).encode a C.NETCODE_MAX_PACKET_BYTES s.protocolId (some (c.sequence, c.sendKey)) with
+      | err e => rw [he] at h; cases h
+      | panic m => rw [he] at h; cases h
+      | ok o =>
+        rw [he] at h
+        simp only [bind_ok'] at h
+        cases hq : (incU64 c.sequence "server.rs generate_payload_packet: client.sequence += 1" : NRes Nat) with
+        | err e => rw [hq] at h; cases h
+        | panic m => rw [hq] at h; cases h
+        | ok sq =>
+          rw [hq] at h
+          simp only [bind_ok', pure_eq', Res.ok.injEq, Prod.mk.injEq] at h
+          obtain ⟨⟨rfl, rfl⟩, rfl⟩ := h
+          rw [incU64_eq_ok hq]
+          exact ⟨i, c, rfl, hc, hid, rfl, he, rfl⟩
+
+theorem generatePayload_inv {a : AEAD} {s s' : NetcodeServer} {id : Nat} {payload : Bytes} {r : Addr × Bytes}
+    (h : ServerInv s) (hg : s.generatePayloadPacket a id payload = .ok (r, s')) : ServerInv s' := by
+  obtain ⟨ad, out⟩ := r
+  obtain ⟨i, c, _, hc, _, _, _, rfl⟩ := generatePayload_ok hg
+  exact h.refreshSlot hc rfl (h.slots.conn i c hc)
+    ⟨(h.slotsOK i c hc).recv, Nat.le_refl _, (h.slotsOK i c hc).tmo⟩
+
+theorem generatePayload_ne_panic (a : AEAD) {s : NetcodeServer} (id : Nat) (payload : Bytes) (hh : Headroom s)
+    (m : String) : s.generatePayloadPacket a id payload ≠ .panic m := by
+  unfold NetcodeServer.generatePayloadPacket
+  split
+  · simp
+  · cases hf : findClientSlotById s.clients id with
+    | none => simp
+    | some i =>
+      obtain ⟨c, hc, hid, hb⟩ := findSlot_some hf
+      rw [hb]
+      simp only
+      refine bind_ne_panic (encode_ne_panic _ _ _ _ _ _) fun o => ?_
+      rw [incU64_ok _ (hh.seqs i c hc)]
+      simp
+
+/-! ## Part 3 : `process_packet` -/
+
+/-- the MAC of a private connect token: its last 16 bytes -/
+def tokenMac (data : Bytes) : Bytes := data.drop (C.NETCODE_CONNECT_TOKEN_PRIVATE_BYTES - C.NETCODE_MAC_BYTES)
+
+/-- the half-open session `handle_connection_request` stores for a token `t` presented from `addr` -/
+def mkPending (now : Nat) (addr : Addr) (expire : Nat) (t : PrivateConnectToken) : Connection :=
+  { confirmed := false, sequence := 0, clientId := t.clientId
+    lastPacketReceivedTime := now, lastPacketSendTime := now, addr
+    state := .pendingResponse, sendKey := t.serverToClientKey
+    receiveKey := t.clientToServerKey, timeoutSeconds := t.timeoutSeconds
+    expireTimestamp := expire, userData := t.userData, replayProtection := RP.new }
+
+/-- the private token opens under the server's key (AAD = version ‖ protocol id ‖ expiry) to the token `t` -/
+def TokenOpens (a : AEAD) (s : NetcodeServer) (expire : Nat) (xnonce data : Bytes) (t : PrivateConnectToken) : Prop :=
+  ∃ plain, a.xopen s.connectKey xnonce (PrivateConnectToken.additionalData s.protocolId expire) data = some plain ∧
+    PrivateConnectToken.read (plain ++ data.drop plain.length) = some t
+
+/-- Every check a connection request (fields `v pid expire xnonce data`, source `addr`) passes before the server
+    answers it with a challenge or a denial. -/
+structure Accepted (a : AEAD) (s : NetcodeServer) (addr : Addr) (v : Bytes) (pid expire : Nat) (xnonce data : Bytes)
+    (t : PrivateConnectToken) : Prop where
+  version : v = C.NETCODE_VERSION_INFO
+  protocol : pid = s.protocolId
+  unexpired : asSecs s.currentTime < expire
+  opens : TokenOpens a s expire xnonce data t
+  host : s.secure = true → ∃ x, some x ∈ t.serverAddresses ∧ x ∈ s.publicAddresses
+  addrFree : findClientByAddr s.clients addr = none
+  idFree : findClientById s.clients t.clientId = none
+  room : (pendingFind s.pendingClients addr).isSome ∨ s.pendingClients.length < C.NETCODE_MAX_PENDING_CLIENTS
+  /-- the token-to-address binding: no entry of the table carries this token's MAC with another address -/
+  binding : (s.findOrAddConnectTokenEntry ⟨s.currentTime, addr, tokenMac data⟩).2 = true
+
+/-- the token-entry table after an accepted request: untouched, or the new entry written where no entry had its MAC -/
+def EntryStep (s s1 : NetcodeServer) (ne : ConnectTokenEntry) : Prop :=
+  s1 = s ∨ ((∀ e, some e ∈ s.connectTokenEntries → e.mac ≠ ne.mac) ∧
+            ∃ k, s1 = { s with connectTokenEntries := s.connectTokenEntries.set k (some ne) })
+
+/-- the possible outcomes of `handle_connection_request` -/
+inductive HcrOut (a : AEAD) (s : NetcodeServer) (addr : Addr) (v : Bytes) (pid expire : Nat) (xnonce data : Bytes) :
+    NetcodeServer.SRes → Prop
+  /-- a check failed: nothing changes -/
+  | err (e : NetcodeError) : HcrOut a s addr v pid expire xnonce data (.err (e, s))
+  /-- already connected / pending map full / token bound to another address: nothing changes -/
+  | none : HcrOut a s addr v pid expire xnonce data (.ok (.none, s))
+  | deniedErr (t : PrivateConnectToken) (s1 : NetcodeServer) (e : NetcodeError) :
+      Accepted a s addr v pid expire xnonce data t → EntryStep s s1 ⟨s.currentTime, addr, tokenMac data⟩ →
+      countConnected s.clients ≥ s.maxClients →
+      HcrOut a s addr v pid expire xnonce data
+        (.err (e, { s1 with pendingClients := pendingRemove s1.pendingClients addr }))
+  /-- the server is full: the half-open session of this address (if any) is dropped, `ConnectionDenied` goes out -/
+  | denied (t : PrivateConnectToken) (s1 : NetcodeServer) (out : Bytes) :
+      Accepted a s addr v pid expire xnonce data t → EntryStep s s1 ⟨s.currentTime, addr, tokenMac data⟩ →
+      countConnected s.clients ≥ s.maxClients →
+      Packet.connectionDenied.encode a C.NETCODE_MAX_PACKET_BYTES s.protocolId
+        (some (s.globalSequence, t.serverToClientKey)) = .ok out →
+      HcrOut a s addr v pid expire xnonce data
+        (.ok (.packetToSend addr out, { s1 with pendingClients := pendingRemove s1.pendingClients addr
+                                                globalSequence := s.globalSequence + 1 }))
+  | challengeErr (t : PrivateConnectToken) (s1 : NetcodeServer) (e : NetcodeError) :
+      Accepted a s addr v pid expire xnonce data t → EntryStep s s1 ⟨s.currentTime, addr, tokenMac data⟩ →
+      countConnected s.clients < s.maxClients →
+      HcrOut a s addr v pid expire xnonce data
+        (.err (e, { s1 with challengeSequence := s.challengeSequence + 1 }))
+  /-- a challenge goes out and the half-open session of this address is (re)created from the token -/
+  | challenge (t : PrivateConnectToken) (s1 : NetcodeServer) (pkt : Packet) (out : Bytes) :
+      Accepted a s addr v pid expire xnonce data t → EntryStep s s1 ⟨s.currentTime, addr, tokenMac data⟩ →
+      countConnected s.clients < s.maxClients →
+      ChallengeToken.generate a t.clientId t.userData (s.challengeSequence + 1) s.challengeKey = .ok pkt →
+      pkt.encode a C.NETCODE_MAX_PACKET_BYTES s.protocolId (some (s.globalSequence, t.serverToClientKey)) = .ok out →
+      HcrOut a s addr v pid expire xnonce data
+        (.ok (.packetToSend addr out,
+              { s1 with challengeSequence := s.challengeSequence + 1, globalSequence := s.globalSequence + 1
+                        pendingClients := pendingSet s1.pendingClients addr (mkPending s.currentTime addr expire t) }))
+
+theorem lift_ok {α} (s : NetcodeServer) (x : α) : NetcodeServer.lift s (.ok x : NRes α) = .ok x := rfl
+theorem lift_err {α} (s : NetcodeServer) (e : NetcodeError) : NetcodeServer.lift s (.err e : NRes α) = .err (e, s) := rfl
+
+theorem generate_ne_panic (a : AEAD) (id : Nat) (ud : Bytes) (cs : Nat) (k : Bytes) (m : String) :
+    ChallengeToken.generate a id ud cs k ≠ .panic m := by
+  unfold ChallengeToken.generate
+  refine bind_ne_panic (io?_ne_panic _ _) fun w => bind_ne_panic (io?_ne_panic _ _) fun w' => by simp
+
+theorem entryStep_fields {s s1 : NetcodeServer} {ne : ConnectTokenEntry} (h : EntryStep s s1 ne) :
+    s1.clients = s.clients ∧ s1.pendingClients = s.pendingClients ∧ s1.protocolId = s.protocolId ∧
+    s1.connectKey = s.connectKey ∧ s1.maxClients = s.maxClients ∧ s1.challengeSequence = s.challengeSequence ∧
+    s1.challengeKey = s.challengeKey ∧ s1.publicAddresses = s.publicAddresses ∧ s1.currentTime = s.currentTime ∧
+    s1.globalSequence = s.globalSequence ∧ s1.secure = s.secure := by
+  rcases h with rfl | ⟨_, k, rfl⟩ <;> simp
+
+/-- `handle_connection_request`, symbolically executed.  Needs: the token blob is long enough to carry a MAC (true of
+    every decoded request: 1024 bytes) and the two counters have room. -/
+theorem hcr_spec (a : AEAD) (s : NetcodeServer) (addr : Addr) (v : Bytes) (pid expire : Nat) (xnonce data : Bytes)
+    (hd : C.NETCODE_MAC_BYTES ≤ data.length) (hg : s.globalSequence < U64_MAX) (hc : s.challengeSequence < U64_MAX) :
+    HcrOut a s addr v pid expire xnonce data
+      (NetcodeServer.handleConnectionRequest a s addr v pid expire xnonce data) := by
+  unfold NetcodeServer.handleConnectionRequest
+  split
+  · exact .err _
+  rename_i hv
+  split
+  · exact .err _
+  rename_i hp
+  split
+  · exact .err _
+  rename_i hx
+  unfold PrivateConnectToken.decode
+  rw [if_neg (by omega)]
+  cases hxo : a.xopen s.connectKey xnonce (PrivateConnectToken.additionalData s.protocolId expire) data with
+  | none => exact .err _
+  | some plain =>
+    simp only
+    cases hrd : PrivateConnectToken.read (plain ++ data.drop plain.length) with
+    | none => exact .err _
+    | some t =>
+      simp only
+      split
+      · exact .err _
+      rename_i hhost
+      split
+      · exact .none
+      rename_i hfree
+      split
+      · exact .none
+      rename_i hroom
+      have hacc : (s.findOrAddConnectTokenEntry ⟨s.currentTime, addr, tokenMac data⟩).2 = true →
+          Accepted a s addr v pid expire xnonce data t := by
+        intro hb
+        refine ⟨by simpa using hv, by simpa using hp, by omega, ⟨plain, hxo, hrd⟩, ?_, ?_, ?_, ?_, hb⟩
+        · intro hs
+          simp only [hs, true_and, Bool.not_eq_true', Bool.not_eq_false] at hhost
+          rw [List.any_eq_true] at hhost
+          obtain ⟨h, hh, hc⟩ := hhost
+          cases h with
+          | none => simp at hc
+          | some x => exact ⟨x, hh, by simpa using hc⟩
+        · cases h : findClientByAddr s.clients addr with
+          | none => rfl
+          | some p => simp [h] at hfree
+        · cases h : findClientById s.clients t.clientId with
+          | none => rfl
+          | some p => simp [h] at hfree
+        · cases h : pendingFind s.pendingClients addr with
+          | some p => left; rfl
+          | none =>
+            right
+            simp only [h, Option.isNone_none, true_and] at hroom
+            omega
+      rcases findOrAdd_spec s ⟨s.currentTime, addr, tokenMac data⟩ with ⟨e, he, hm, heq⟩ | ⟨hn, k, heq⟩
+      · -- an entry with this MAC exists
+        show HcrOut a s addr v pid expire xnonce data
+          (match s.findOrAddConnectTokenEntry ⟨s.currentTime, addr, tokenMac data⟩ with
+           | (s, added) => _)
+        by_cases hadr : e.address = addr
+        · have hacc := hacc (by rw [heq]; simp [hadr])
+          rw [heq]
+          simp only [hadr, decide_true, Bool.not_true, Bool.false_eq_true, if_false]
+          split
+          · rename_i hfull
+            cases hen : Packet.connectionDenied.encode a C.NETCODE_MAX_PACKET_BYTES s.protocolId
+                (some (s.globalSequence, t.serverToClientKey)) with
+            | panic m => exact absurd hen (encode_ne_panic _ _ _ _ _ _)
+            | err e' => exact .deniedErr t s e' hacc (Or.inl rfl) hfull
+            | ok out =>
+              simp only [lift_ok, bind_ok', incU64_ok _ hg, pure_eq']
+              exact .denied t s out hacc (Or.inl rfl) hfull hen
+          · rename_i hfull
+            simp only [incU64_ok _ hc, bind_ok']
+            cases hgen : ChallengeToken.generate a t.clientId t.userData (s.challengeSequence + 1) s.challengeKey with
+            | panic m => exact absurd hgen (generate_ne_panic _ _ _ _ _ _)
+            | err e' => exact .challengeErr t s e' hacc (Or.inl rfl) (by omega)
+            | ok pkt =>
+              simp only [lift_ok, bind_ok']
+              cases hen : pkt.encode a C.NETCODE_MAX_PACKET_BYTES s.protocolId
+                  (some (s.globalSequence, t.serverToClientKey)) with
+              | panic m => exact absurd hen (encode_ne_panic _ _ _ _ _ _)
+              | err e' => exact .challengeErr t s e' hacc (Or.inl rfl) (by omega)
+              | ok out =>
+                simp only [lift_ok, bind_ok', incU64_ok _ hg, pure_eq']
+                exact .challenge t s pkt out hacc (Or.inl rfl) (by omega) hgen hen
+        · rw [heq]
+          simp only [hadr, decide_false, Bool.not_false, if_true]
+          exact .none
+      · -- no entry with this MAC: it is recorded
+        show HcrOut a s addr v pid expire xnonce data
+          (match s.findOrAddConnectTokenEntry ⟨s.currentTime, addr, tokenMac data⟩ with
+           | (s, added) => _)
+        have hacc := hacc (by rw [heq])
+        have hstep : EntryStep s { s with connectTokenEntries := s.connectTokenEntries.set k
+            (some ⟨s.currentTime, addr, tokenMac data⟩) } ⟨s.currentTime, addr, tokenMac data⟩ :=
+          Or.inr ⟨hn, k, rfl⟩
+        rw [heq]
+        simp only [Bool.not_true, Bool.false_eq_true, if_false]
+        split
+        · rename_i hfull
+          cases hen : Packet.connectionDenied.encode a C.NETCODE_MAX_PACKET_BYTES s.protocolId
+              (some (s.globalSequence, t.serverToClientKey)) with
+          | panic m => exact absurd hen (encode_ne_panic _ _ _ _ _ _)
+          | err e' => exact .deniedErr t _ e' hacc hstep hfull
+          | ok out =>
+            simp only [lift_ok, bind_ok', incU64_ok _ hg, pure_eq']
+            exact .denied t _ out hacc hstep hfull hen
+        · rename_i hfull
+          simp only [incU64_ok _ hc, bind_ok']
+          cases hgen : ChallengeToken.generate a t.clientId t.userData (s.challengeSequence + 1) s.challengeKey with
+          | panic m => exact absurd hgen (generate_ne_panic _ _ _ _ _ _)
+          | err e' => exact .challengeErr t _ e' hacc hstep (by omega)
+          | ok pkt =>
+            simp only [lift_ok, bind_ok']
+            cases hen : pkt.encode a C.NETCODE_MAX_PACKET_BYTES s.protocolId
+                (some (s.globalSequence, t.serverToClientKey)) with
+            | panic m => exact absurd hen (encode_ne_panic _ _ _ _ _ _)
+            | err e' => exact .challengeErr t _ e' hacc hstep (by omega)
+            | ok out =>
+              simp only [lift_ok, bind_ok', incU64_ok _ hg, pure_eq']
+              exact .challenge t _ pkt out hacc hstep (by omega) hgen hen
+
 end NS
 end RenetVerif.Netcode
